@@ -78,7 +78,7 @@ func HarnessC09() {
 		want := wMeta[p]
 		if want == nil {
 			verif.Assert("C09-no-metadata-invented", got == nil)
-		} else {
+		} else if want.gitCommitID != "" || want.gitCommitMessage != "" {
 			verif.Assert("C09-package-metadata-survives", got != nil && *got == *want)
 		}
 	}
